@@ -21,13 +21,13 @@ Definition linspace_open_step (a b : R) (num : Z) : R := (b - a) / IZR num.
 Definition linspace_open (a b : R) (num : Z) : list R :=
   arange_affine a (linspace_open_step a b num) (Z.to_nat num).
 
-(* trapezoid(ys, dx=dx): dx * sum (y_i + y_{i+1}) / 2 *)
-Fixpoint trapz_sum (ys : list R) : R :=
+(* trapezoid(ys, dx=dx) = sum over consecutive pairs of dx * (y_i + y_{i+1}) / 2; a single sample gives the
+   empty sum 0 whatever dx is (numpy.linspace(a, b, 1, retstep=True) returns step = nan) *)
+Fixpoint trapz_dx (dx : R) (ys : list R) : R :=
   match ys with
-  | y0 :: ((y1 :: _) as t) => (y0 + y1) / 2 + trapz_sum t
+  | y0 :: ((y1 :: _) as t) => dx * (y0 + y1) / 2 + trapz_dx dx t
   | _ => 0
   end.
-Definition trapz_dx (dx : R) (ys : list R) : R := dx * trapz_sum ys.
 
 Fixpoint list_prod (l : list R) : R := match l with [] => 1 | x :: t => x * list_prod t end.
 
